@@ -289,6 +289,26 @@ def handle (d : D) (line : String) : IO D := do
         else d := { d with st := d.st.bump "snap_pull_followed_by_scan" }
       | _ => pure ()
       d := { d with c := { d.c with prev := some (s, kvOf rest "tready" == "1", rf.contains "t") } }
+      -- trigger leg: the acceptor's FIFO state against the simulator's, and the statement of C16_no_lost_wakeup evaluated on the
+      -- implementation (the abstract state is the one reconstructed from the real programs' system calls; `tready` is the real descriptor)
+      if !d.selOnly then
+        match d.c.st with
+        | some ts =>
+          let tready := kvOf rest "tready" == "1"
+          if ts.dOpen && kvOf rest "trig" == "1" then
+            d := { d with st := d.st.bump "snap_fifo_state_compared" }
+            if tready != ts.buf then
+              IO.println s!"DISAGREE {d.c.hdr} select#{d.c.nsnap} after event#{d.c.nev}: the trigger FIFO is {if tready then "readable" else "not readable"} in the run but Trigger.St.buf = {ts.buf}"
+              d := { d with st := { d.st with disagree := d.st.disagree + 1 } }
+          if ts.d == .idle then
+            match ts.todo.find? (fun n => pulled (ts.pc n)) with
+            | some n =>
+              d := { d with st := d.st.bump "snap_idle_with_completed_injection_unprocessed" }
+              if !tready then
+                IO.println s!"ORACLE {d.c.hdr} select#{d.c.nsnap} after event#{d.c.nev} why=lost_wakeup:daemon_outside_a_scan,_injection_{n}_completed_and_unprocessed,_trigger_not_readable(C16_no_lost_wakeup)"
+                d := { d with st := { d.st with oracle := d.st.oracle + 1 } }
+            | none => pure ()
+        | none => pure ()
       return d
   | "X" :: "start" :: _ => return { d with c := { d.c with prev := none } }      -- a new incarnation of the daemon
   | "X" :: "intr" :: _ =>      -- this select was interrupted by a signal (EINTR): the loop body did not run, so nothing follows from `prev`
